@@ -17,7 +17,7 @@ for d in $ROOT/seeded/*/; do
   name=$(basename "$d")
   [ -f "$d/patch.diff" ] || continue
   if grep -q '"superseded"' "$d/meta.json" 2>/dev/null; then echo "$name - $tier superseded" >> "$out"; continue; fi
-  prop=$(python3 -c "import json,sys;print(json.load(open('$d/meta.json'))['breaks_property'])")
+  prop=$(python3 -c "import json,sys;m=json.load(open('$d/meta.json'));print(m.get('own_check') or m['breaks_property'])")
   tools/seed_run.sh "$name" "$tier" $prop 2>&1 | grep " exit=" >> "$out"
 done
 python3 - "$out" "$tier" "$ROOT" <<'PY'
